@@ -45,7 +45,7 @@ type verifCertSpec struct {
 // (baseEpoch, baseTag) under table k with one symbolically chosen defect (or
 // none) and a symbolic signer set, and says whether it is valid per the
 // reference predicate (DESIGN Appendix A.3), given whether a base is imposed.
-func verifMakeCert(tag string, expectInstance uint64, baseEpoch int64, k int, full bool, baseImposed bool) verifCertSpec {
+func verifMakeCert(tag string, expectInstance uint64, baseEpoch int64, k int, full bool, baseImposed bool, fixedSigners int) verifCertSpec {
 	table := verifTable(k)
 	next := verifTable(k + 1)
 	n := len(table)
@@ -103,7 +103,7 @@ func verifMakeCert(tag string, expectInstance uint64, baseEpoch int64, k int, fu
 		if !full && i == 3 {
 			continue // quick tier: member 3 never signs (halves the subsets)
 		}
-		if sym.Bool(tag + "-signer") {
+		if i < fixedSigners || sym.Bool(tag+"-signer") {
 			idx = append(idx, uint64(i))
 			mask = append(mask, i)
 			if i >= n || scaled[i] == 0 {
@@ -159,7 +159,7 @@ func VerifC04_ValidateOne() {
 	case 2:
 		base = gpbft.VerifTipSet(11, 10) // differs from every generated base
 	}
-	spec := verifMakeCert("c0", first, 10, 0, sym.Tier() == 1, base != nil)
+	spec := verifMakeCert("c0", first, 10, 0, sym.Tier() == 1, base != nil, 0)
 	valid := spec.valid
 	if base != nil && base.Epoch != 10 {
 		valid = false
@@ -187,9 +187,9 @@ func VerifC04_ValidateOne() {
 // head finalized by the predecessor and through evolving power tables).
 func VerifC04_ValidateSequence() {
 	first := uint64(7)
-	s0 := verifMakeCert("c0", first, 10, 0, false, false)
+	s0 := verifMakeCert("c0", first, 10, 0, false, false, 2-sym.Tier())
 	// the second certificate must start at the head finalized by the first (epoch 12)
-	s1 := verifMakeCert("c1", first+1, 12, 1, false, true)
+	s1 := verifMakeCert("c1", first+1, 12, 1, false, true, 2-sym.Tier())
 	next, chain, table, err := ValidateFinalityCertificates(gpbft.VerifCrypto{}, verifNN, verifTable(0), first, nil, s0.cert, s1.cert)
 	prefix := 0
 	if s0.valid {
